@@ -432,19 +432,19 @@ Qed.
 Definition is_some {A} (o : option A) : bool := match o with Some _ => true | None => false end.
 
 Definition reqattr_ok (r : reqattr) : bool :=
-  is_some (fst (ra_step1 r)) && is_some (snd (ra_step2 r)) && check_lex LBoolean (lower (pystr (ra_required r))).
+  is_some (fst (ra_step1 r)) && is_some (ra_step3 r) && check_lex LBoolean (lower (pystr (ra_required r))).
 
 Lemma owf_requested_attribute r : reqattr_ok r = true -> owf live_table (requested_attribute r) = true.
 Proof.
-  unfold reqattr_ok, requested_attribute. intros H. apply andb_true_iff in H as [H Hb]. apply andb_true_iff in H as [Hn Hf].
-  destruct (fst (ra_step1 r)) as [n|]; [|discriminate]. destruct (snd (ra_step2 r)) as [f|]; [|discriminate].
+  unfold reqattr_ok, requested_attribute, requested_attribute_of. intros H. apply andb_true_iff in H as [H Hb]. apply andb_true_iff in H as [Hn Hf].
+  destruct (fst (ra_step1 r)) as [n|]; [|discriminate]. destruct (ra_step3 r) as [f|]; [|discriminate].
   node' at_ReqAttr ci_ReqAttr. rewrite Hb. conj; leaf.
 Qed.
 
 Lemma owf_requested_attributes_node rs :
   forallb reqattr_ok rs = true -> owf live_table (requested_attributes_node rs) = true.
 Proof.
-  intros H. unfold requested_attributes_node.
+  intros H. unfold requested_attributes_node, requested_attributes_node_of.
   assert (Hall : forallb (fun cb : cref * bool => cref_eqb (fst cb) (CK k_extension_requested_attributes_RequestedAttribute) && snd cb)
                    (map (fun y => (obj_cref y, owf live_table y)) (map requested_attribute rs)) = true).
   { apply members_all. apply Forall_forall. intros y Hy. apply in_map_iff in Hy as [r [<- Hr]].
@@ -457,36 +457,42 @@ Definition knows (sel : conv -> list (string * string)) (key : string) (cs : lis
   is_some (first_hit sel key cs).
 
 (* the arguments for which the element comes out valid, stated on the INPUT: isRequired has to be a boolean; a name
-   that is given needs a name format that is given or - only when the friendly name is left out - a converter that
-   knows the name; a name that is left out needs a converter that knows the friendly name *)
+   that is given needs a name format that is given or a converter that knows the name (since 711f9f2e also when the
+   friendly name is given as well); a name that is left out needs a converter that knows the friendly name *)
 Definition rattr_ok (cs : list conv) (r : rattr) : bool :=
   check_lex LBoolean (lower (pystr (rq_required r))) &&
-  if struthy (rq_name r) then
-    if struthy (rq_friendly r) then is_some (rq_format r)
-    else is_some (rq_format r) || knows cv_fro (lower (text_of (rq_name r))) cs
+  if struthy (rq_name r) then is_some (rq_format r) || knows cv_fro (lower (text_of (rq_name r))) cs
   else struthy (rq_friendly r) && knows cv_to (lower (text_of (rq_friendly r))) cs.
 
 Lemma struthy_some o : struthy o = true -> exists s, o = Some s.
 Proof. destruct o as [s|]; [eauto|discriminate]. Qed.
+
+Lemma truthy_nonempty n : struthy (Some n) = true -> is_empty n = false.
+Proof. cbn [struthy]. destruct (is_empty n); [discriminate|reflexivity]. Qed.
 
 Lemma resolve_ok cs r : rattr_ok cs r = true -> exists q, ra_resolve cs r = Some q /\ reqattr_ok q = true.
 Proof.
   unfold rattr_ok, ra_resolve, reqattr_ok, knows. intros H. apply andb_true_iff in H as [Hb H].
   destruct (struthy (rq_name r)) eqn:En.
   - cbn [negb andb]. eexists. split; [reflexivity|]. cbn [ra_required]. rewrite Hb, andb_true_r.
-    unfold ra_step2, ra_step1. cbn [ra_name ra_format ra_friendly ra_to_hit ra_fro_hit fst snd]. rewrite En.
+    unfold ra_step3, ra_step2, ra_step1. cbn [ra_name ra_format ra_friendly ra_to_hit ra_fro_hit fst snd]. rewrite En.
     destruct (struthy_some _ En) as [n Hn]. rewrite Hn in *. cbn [text_of] in H.
-    cbn [fst snd is_some andb].
-    destruct (struthy (rq_friendly r)) eqn:Ef; cbn [fst snd]; [exact H|].
-    destruct (first_hit cv_fro (lower n) cs) as [[fr f]|]; cbn [is_some fst snd] in *.
-    + destruct (struthy (rq_format r)) eqn:Efm; [|reflexivity]. destruct (struthy_some _ Efm) as [x ->]. reflexivity.
-    + rewrite orb_false_r in H. exact H.
+    cbn [fst snd is_some andb]. pose proof (truthy_nonempty n En) as Hne.
+    destruct (first_hit cv_fro (lower n) cs) as [[fr f]|]; cbn [is_some] in H.
+    + destruct (struthy (rq_friendly r)); cbn [fst snd];
+        destruct (struthy (rq_format r)) eqn:Efm; rewrite ?Efm, ?Hne; try (destruct (struthy_some _ Efm) as [x ->]); try reflexivity;
+        destruct (struthy (Some f)); rewrite ?Hne; reflexivity.
+    + rewrite orb_false_r in H. destruct (rq_format r) as [x|]; [|discriminate].
+      destruct (struthy (rq_friendly r)); cbn [fst snd]; destruct (struthy (Some x)); rewrite ?Hne; reflexivity.
   - apply andb_true_iff in H as [Ef H]. rewrite Ef. cbn [negb andb]. eexists. split; [reflexivity|].
     cbn [ra_required]. rewrite Hb, andb_true_r.
-    unfold ra_step2, ra_step1. cbn [ra_name ra_format ra_friendly ra_to_hit ra_fro_hit fst snd]. rewrite En, Ef.
+    unfold ra_step3, ra_step2, ra_step1. cbn [ra_name ra_format ra_friendly ra_to_hit ra_fro_hit fst snd]. rewrite En, Ef.
     destruct (struthy_some _ Ef) as [f Hf]. rewrite Hf in *. cbn [text_of] in H.
     destruct (first_hit cv_to (lower f) cs) as [[n fm]|]; [|discriminate]. cbn [fst snd is_some andb].
-    destruct (struthy (rq_format r)) eqn:Efm; [|reflexivity]. destruct (struthy_some _ Efm) as [x ->]. reflexivity.
+    destruct (struthy (rq_format r)) eqn:Efm.
+    + rewrite Efm. destruct (struthy_some _ Efm) as [x ->]. reflexivity.
+    + destruct (struthy (Some fm)); [reflexivity|]. destruct (is_empty n); [reflexivity|].
+      destruct (first_hit cv_fro (lower n) cs) as [[fr f']|]; reflexivity.
 Qed.
 
 Lemma resolve_all_ok cs l :
@@ -505,7 +511,8 @@ Proof. intros H. destruct (resolve_ok cs r H) as [q [E Hq]]. exists q. split; [e
 (* the Name written (None: the element has no Name) and the FriendlyName *)
 Definition name_of (q : reqattr) : option string := fst (ra_step1 q).
 Definition friendly_of (q : reqattr) : option string := fst (ra_step2 q).
-Definition format_of (q : reqattr) : option string := snd (ra_step2 q).
+Definition format_of (q : reqattr) : option string := ra_step3 q.
+Definition format_of_v0 (q : reqattr) : option string := snd (ra_step2 q).
 
 Lemma first_hit_app_skip sel key cs1 cs2 :
   (forall c, In c cs1 -> sassoc key (sel c) = None) -> first_hit sel key (cs1 ++ cs2) = first_hit sel key cs2.
@@ -520,14 +527,17 @@ Theorem reqattr_first_map cs1 c cs2 r f n :
   struthy (rq_name r) = false -> rq_friendly r = Some f -> is_empty f = false ->
   (forall c', In c' cs1 -> sassoc (lower f) (cv_to c') = None) -> sassoc (lower f) (cv_to c) = Some n ->
   exists q, ra_resolve (cs1 ++ c :: cs2) r = Some q /\ name_of q = Some n /\ friendly_of q = Some f
-            /\ format_of q = if struthy (rq_format r) then rq_format r else Some (cv_format c).
+            /\ (is_empty (cv_format c) = false ->
+                format_of q = if struthy (rq_format r) then rq_format r else Some (cv_format c)).
 Proof.
   intros En Ef Hne Hskip Hhit. unfold ra_resolve. rewrite En, Ef. cbn [struthy]. rewrite Hne. cbn [negb andb].
   eexists. split; [reflexivity|].
-  unfold name_of, friendly_of, format_of, ra_step2, ra_step1.
+  unfold name_of, friendly_of, format_of, ra_step3, ra_step2, ra_step1.
   cbn [ra_name ra_format ra_friendly ra_to_hit ra_fro_hit fst snd]. rewrite En.
   rewrite (first_hit_app_skip cv_to (lower f) cs1 (c :: cs2) Hskip). cbn [first_hit]. rewrite Hhit.
-  cbn [fst snd struthy]. rewrite Hne. cbn [negb fst snd]. repeat split.
+  cbn [fst snd struthy]. rewrite Hne. cbn [negb fst snd]. split; [reflexivity|]. split; [reflexivity|]. intros Hc.
+  destruct (rq_format r) as [x|]; cbn [struthy]; [destruct (is_empty x) eqn:Ex; cbn [negb struthy]; rewrite ?Ex, ?Hc; reflexivity|].
+  rewrite Hc. reflexivity.
 Qed.
 
 (* what the caller writes as name_format has no influence on Name and FriendlyName *)
@@ -574,20 +584,16 @@ Definition rattr_known (cs : list conv) (r : rattr) : bool :=
   if struthy (rq_name r) then knows cv_fro (lower (text_of (rq_name r))) cs
   else struthy (rq_friendly r) && knows cv_to (lower (text_of (rq_friendly r))) cs.
 
-Definition rattr_guard (r : rattr) : bool :=
-  negb (struthy (rq_name r) && struthy (rq_friendly r) && negb (is_some (rq_format r))).
-
-Lemma rattr_known_guard_ok cs r : rattr_known cs r = true -> rattr_guard r = true -> rattr_ok cs r = true.
+Lemma rattr_known_ok cs r : rattr_known cs r = true -> rattr_ok cs r = true.
 Proof.
-  unfold rattr_known, rattr_guard, rattr_ok. intros H G. apply andb_true_iff in H as [Hb H]. rewrite Hb. cbn [andb].
-  destruct (struthy (rq_name r)); [|exact H]. rewrite H, orb_true_r.
-  destruct (struthy (rq_friendly r)); [|reflexivity]. cbn [andb] in G. destruct (is_some (rq_format r)); [reflexivity|discriminate].
+  unfold rattr_known, rattr_ok. intros H. apply andb_true_iff in H as [Hb H]. rewrite Hb. cbn [andb].
+  destruct (struthy (rq_name r)); [|exact H]. rewrite H, orb_true_r. reflexivity.
 Qed.
 
-Theorem reqattr_known_guarded_valid cs r :
-  rattr_known cs r = true -> rattr_guard r = true ->
-  exists q, ra_resolve cs r = Some q /\ owf live_table (requested_attribute q) = true.
-Proof. intros H G. exact (reqattr_valid cs r (rattr_known_guard_ok cs r H G)). Qed.
+(* since 711f9f2e: every attribute the loaded maps know is valid, however it is spelt *)
+Theorem reqattr_known_valid cs r :
+  rattr_known cs r = true -> exists q, ra_resolve cs r = Some q /\ owf live_table (requested_attribute q) = true.
+Proof. intros H. exact (reqattr_valid cs r (rattr_known_ok cs r H)). Qed.
 
 Definition sample_convs : list conv :=
   [{| cv_format := "urn:oasis:names:tc:SAML:2.0:attrname-format:uri";
@@ -595,65 +601,23 @@ Definition sample_convs : list conv :=
 Definition sample_both : rattr :=
   {| rq_name := Some "urn:oid:2.5.4.42"; rq_friendly := Some "givenName"; rq_format := None; rq_required := PBool true |}.
 
-Theorem reqattr_no_format_refuted :
+(* the code before 711f9f2e (requested_attribute_v0): the same attribute came out without NameFormat *)
+Theorem reqattr_no_format_v0_refuted :
   exists cs r q, rattr_known cs r = true /\ ra_resolve cs r = Some q
                  /\ valid live_table (CK k_extension_requested_attributes_RequestedAttribute)
-                          (to_tree live_table (requested_attribute q)) = false.
+                          (to_tree live_table (requested_attribute_v0 q)) = false.
 Proof. exists sample_convs, sample_both. eexists. split; [reflexivity|]. split; [reflexivity|]. vm_compute. reflexivity. Qed.
 
-(* the proposed repair: a name format that is still missing after the two loops is taken from the first map that
-   knows the name *)
-Definition format_fixed (cs : list conv) (q : reqattr) : option string :=
-  if struthy (format_of q) then format_of q
-  else match name_of q with
-       | Some n => if is_empty n then format_of q
-                   else match first_hit cv_fro (lower n) cs with Some (_, f) => Some f | None => format_of q end
-       | None => format_of q
-       end.
+Example reqattr_no_format_sample :
+  exists q, ra_resolve sample_convs sample_both = Some q
+            /\ format_of q = Some "urn:oasis:names:tc:SAML:2.0:attrname-format:uri" /\ format_of_v0 q = None.
+Proof. eexists. split; [reflexivity|]. split; reflexivity. Qed.
 
-Definition requested_attribute_fixed (cs : list conv) (q : reqattr) : obj :=
-  Obj k_extension_requested_attributes_RequestedAttribute
-      [at_ "Name" (name_of q); at_ "NameFormat" (format_fixed cs q); at_ "FriendlyName" (friendly_of q);
-       at_ "isRequired" (Some (lower (pystr (ra_required q))))]
-      None [] [].
-
-Lemma fixed_same cs q : struthy (format_of q) = true -> requested_attribute_fixed cs q = requested_attribute q.
-Proof. intros H. unfold requested_attribute_fixed, requested_attribute, format_fixed. rewrite H. reflexivity. Qed.
-
-Theorem reqattr_fixed_valid cs r :
-  rattr_known cs r = true -> exists q, ra_resolve cs r = Some q /\ owf live_table (requested_attribute_fixed cs q) = true.
+(* the repair changes nothing where the two loops had left a usable format *)
+Theorem fix_conservative q : struthy (format_of_v0 q) = true -> requested_attribute q = requested_attribute_v0 q.
 Proof.
-  intros H. unfold rattr_known, knows in H. apply andb_true_iff in H as [Hb H].
-  assert (Hex : exists q, ra_resolve cs r = Some q /\ ra_required q = rq_required r /\ is_some (name_of q) = true
-                         /\ is_some (format_fixed cs q) = true).
-  { unfold ra_resolve. destruct (struthy (rq_name r)) eqn:En.
-    - cbn [negb andb]. destruct (struthy_some _ En) as [n Hn]. rewrite Hn in *. cbn [text_of] in H.
-      eexists. split; [reflexivity|]. split; [reflexivity|].
-      unfold format_fixed, format_of, name_of, ra_step2, ra_step1.
-      cbn [ra_name ra_format ra_friendly ra_to_hit ra_fro_hit fst snd]. rewrite En. cbn [fst snd is_some].
-      split; [reflexivity|].
-      assert (Hne : is_empty n = false) by (cbn [struthy] in En; destruct (is_empty n); [discriminate|reflexivity]).
-      rewrite Hne.
-      destruct (first_hit cv_fro (lower n) cs) as [[fr f]|]; [|discriminate].
-      destruct (struthy (rq_friendly r)); cbn [fst snd].
-      + destruct (struthy (rq_format r)) eqn:Efm; [destruct (struthy_some _ Efm) as [x ->]|]; reflexivity.
-      + destruct (struthy (rq_format r)) eqn:Efm.
-        * rewrite Efm. destruct (struthy_some _ Efm) as [x ->]. reflexivity.
-        * destruct (struthy (Some f)); reflexivity.
-    - apply andb_true_iff in H as [Ef H]. rewrite Ef. cbn [negb andb]. destruct (struthy_some _ Ef) as [f Hf].
-      rewrite Hf in *. cbn [text_of] in H.
-      destruct (first_hit cv_to (lower f) cs) as [[n fm]|] eqn:Eh; [|discriminate].
-      eexists. split; [reflexivity|]. split; [reflexivity|].
-      unfold format_fixed, format_of, name_of, ra_step2, ra_step1.
-      cbn [ra_name ra_format ra_friendly ra_to_hit ra_fro_hit fst snd]. rewrite En, ?Eh, Ef. cbn [fst snd is_some].
-      split; [reflexivity|].
-      destruct (struthy (rq_format r)) eqn:Efm.
-      + rewrite Efm. destruct (struthy_some _ Efm) as [x ->]. reflexivity.
-      + destruct (struthy (Some fm)); [reflexivity|]. destruct (is_empty n); [reflexivity|].
-        destruct (first_hit cv_fro (lower n) cs) as [[fr f']|]; reflexivity. }
-  destruct Hex as [q [E [Hr [Hn Hf]]]]. exists q. split; [exact E|].
-  unfold requested_attribute_fixed. destruct (name_of q) as [n|]; [|discriminate]. destruct (format_fixed cs q) as [x|]; [|discriminate].
-  node' at_ReqAttr ci_ReqAttr. rewrite Hr, Hb. conj; leaf.
+  intros H. unfold requested_attribute, requested_attribute_v0, requested_attribute_of, ra_step3. unfold format_of_v0 in H.
+  rewrite H. reflexivity.
 Qed.
 
 Definition SPTYPES := ["public"; "private"].
@@ -713,7 +677,7 @@ Record ar_ok (a : ar_args) : Prop := {
 
 Lemma ext_choice_ok a : ar_ok a -> opt_ext_ok (ext_choice a) = true.
 Proof.
-  intros H. pose proof (ok_ext_nonempty a H) as Hne. revert Hne. unfold ext_choice.
+  intros H. pose proof (ok_ext_nonempty a H) as Hne. revert Hne. unfold ext_choice, ext_choice_gen.
   pose proof (ok_ext a H) as He. pose proof (ok_sp_type a H) as Hs.
   pose proof (ok_ra a H) as Hr. pose proof (ok_ra_cfg a H) as Hrc.
   set (ext0 := ar_extensions a) in *.
@@ -788,7 +752,9 @@ Qed.
 
 Theorem owf_authn_request a o : ar_ok a -> authn_request a = Some o -> owf live_table o = true.
 Proof.
-  intros H E. unfold authn_request in E. destruct (ras_choice a) as [ras0|]; [|discriminate].
+  intros H E. unfold authn_request, authn_request_gen in E.
+  change (ext_choice_gen requested_attributes_node a) with (ext_choice a) in E.
+  destruct (ras_choice a) as [ras0|]; [|discriminate].
   destruct (sig_member (ar_signing a) (ar_ob a)) as [sg|] eqn:Es; [|discriminate]. inversion E; subst o. clear E.
   pose proof (sig_part _ _ _ (ok_ob a H) Es) as Hsg. pose proof (ext_member _ (ext_choice_ok a H)) as Hex.
   pose proof (nip_part a H) as Hnip.
@@ -822,7 +788,7 @@ Ltac elem_fact := vm_compute; reflexivity.
 
 Theorem authn_request_valid a o : ar_ok a -> authn_request a = Some o -> spec live_table (to_tree live_table o).
 Proof.
-  intros H E. pose proof (owf_authn_request a o H E) as Ho. unfold authn_request in E.
+  intros H E. pose proof (owf_authn_request a o H E) as Ho. unfold authn_request, authn_request_gen in E.
   destruct (ras_choice a); [|discriminate]. destruct (sig_member _ _); [|discriminate]. inversion E; subst o.
   apply (doc_of_owf _ k_samlp_AuthnRequest ci_AuthnRequest); [reflexivity|exact at_AuthnRequest|elem_fact|exact Ho].
 Qed.
